@@ -12,15 +12,15 @@ namespace SL.Suggest
 section Scan
 variable {α β : Type}
 
-theorem scanSeg_spec (q : α → Option β) (cap : Nat) : ∀ (es : List α) (n : Nat),
-    (scanSeg q cap n es).2 = (es.filterMap q).take (cap - n) ∧
-    (scanSeg q cap n es).1 = n + ((es.filterMap q).take (cap - n)).length := by
+theorem legacy_scanSeg_spec (q : α → Option β) (cap : Nat) : ∀ (es : List α) (n : Nat),
+    (legacy_scanSeg q cap n es).2 = (es.filterMap q).take (cap - n) ∧
+    (legacy_scanSeg q cap n es).1 = n + ((es.filterMap q).take (cap - n)).length := by
   intro es
   induction es with
-  | nil => intro n; simp [scanSeg]
+  | nil => intro n; simp [legacy_scanSeg]
   | cons e es ih =>
     intro n
-    unfold scanSeg
+    unfold legacy_scanSeg
     by_cases hcap : cap ≤ n
     · have h0 : cap - n = 0 := by omega
       simp [hcap, h0]
@@ -47,15 +47,15 @@ theorem scanSeg_spec (q : α → Option β) (cap : Nat) : ∀ (es : List α) (n 
 
 /-- **the scan with its three `break`s accepts exactly the first `cap` qualifying entries of
 the concatenated dictionaries** -/
-theorem scanSegs_spec (q : α → Option β) (cap : Nat) : ∀ (segs : List (List α)) (n : Nat),
-    scanSegs q cap n segs = (segs.flatten.filterMap q).take (cap - n) := by
+theorem legacy_scanSegs_spec (q : α → Option β) (cap : Nat) : ∀ (segs : List (List α)) (n : Nat),
+    legacy_scanSegs q cap n segs = (segs.flatten.filterMap q).take (cap - n) := by
   intro segs
   induction segs with
-  | nil => intro n; simp [scanSegs]
+  | nil => intro n; simp [legacy_scanSegs]
   | cons seg rest ih =>
     intro n
-    obtain ⟨h2, h1⟩ := scanSeg_spec q cap seg n
-    unfold scanSegs
+    obtain ⟨h2, h1⟩ := legacy_scanSeg_spec q cap seg n
+    unfold legacy_scanSegs
     simp only [List.flatten_cons, List.filterMap_append]
     rw [h2, h1, List.length_take]
     by_cases hc : cap ≤ n + min (cap - n) (seg.filterMap q).length
@@ -68,9 +68,9 @@ theorem scanSegs_spec (q : α → Option β) (cap : Nat) : ∀ (segs : List (Lis
       congr 2
       omega
 
-theorem scanSegs_zero (q : α → Option β) (cap : Nat) (segs : List (List α)) :
-    scanSegs q cap 0 segs = (segs.flatten.filterMap q).take cap := by
-  simpa using scanSegs_spec q cap segs 0
+theorem legacy_scanSegs_zero (q : α → Option β) (cap : Nat) (segs : List (List α)) :
+    legacy_scanSegs q cap 0 segs = (segs.flatten.filterMap q).take cap := by
+  simpa using legacy_scanSegs_spec q cap segs 0
 
 end Scan
 
@@ -462,6 +462,165 @@ theorem mem_filterMap_qGen (ok : List κ → Bool) (w : List κ → Nat) (es : L
   · cases hq
 
 end Gen
+
+
+/-! ### the scan since e9ca503: the cap bounds the number of distinct terms -/
+section NewScan
+variable {κ : Type} [DecidableEq κ]
+
+theorem nodup_subset_length {β : Type} [DecidableEq β] : ∀ (l m : List β),
+    l.Nodup → (∀ x ∈ l, x ∈ m) → l.length ≤ m.length := by
+  intro l
+  induction l with
+  | nil => intro m _ _; simp
+  | cons a l ih =>
+    intro m hn hs
+    rw [List.nodup_cons] at hn
+    have ha : a ∈ m := hs a (by simp)
+    have hsub : ∀ x ∈ l, x ∈ m.erase a := by
+      intro x hx
+      have hne : x ≠ a := fun e => hn.1 (e ▸ hx)
+      rw [List.mem_erase_of_ne hne]
+      exact hs x (List.mem_cons_of_mem _ hx)
+    have h1 := ih (m.erase a) hn.2 hsub
+    rw [List.length_erase_of_mem ha] at h1
+    have := List.length_pos_of_mem ha
+    simp only [List.length_cons]
+    omega
+
+theorem mergeAll_snoc (P : List (Contrib κ)) (c : Contrib κ) :
+    mergeAll (P ++ [c]) = upsert c.1 c.2.1 c.2.2 (mergeAll P) := by
+  simp [mergeAll, List.foldl_append]
+
+theorem hasTerm_iff (acc : List (Cand κ)) (t : List κ) : hasTerm acc t = true ↔ t ∈ terms acc := by
+  simp only [hasTerm, List.any_eq_true, beq_iff_eq, terms, List.mem_map]
+
+theorem length_terms (acc : List (Cand κ)) : (terms acc).length = acc.length := by simp [terms]
+
+/-- number of distinct terms is monotone in the contributions -/
+theorem mergeAll_length_mono (P Q : List (Contrib κ)) :
+    (mergeAll P).length ≤ (mergeAll (P ++ Q)).length := by
+  rw [← length_terms, ← length_terms]
+  apply nodup_subset_length _ _ (mergeAll_nodup P)
+  intro x hx
+  rw [mem_terms_mergeAll] at hx ⊢
+  rw [List.map_append]
+  exact List.mem_append_left _ hx
+
+/-- a new term cannot be refused while the total number of distinct terms fits under the cap -/
+theorem no_refusal (P R : List (Contrib κ)) (c : Contrib κ) (cap : Nat)
+    (hfit : (mergeAll (P ++ c :: R)).length ≤ cap) (hfull : cap ≤ (mergeAll P).length)
+    (hnew : c.1 ∉ terms (mergeAll P)) : False := by
+  have hn : (c.1 :: terms (mergeAll P)).Nodup := List.nodup_cons.mpr ⟨hnew, mergeAll_nodup P⟩
+  have hs : ∀ x ∈ c.1 :: terms (mergeAll P), x ∈ terms (mergeAll (P ++ c :: R)) := by
+    intro x hx
+    rw [mem_terms_mergeAll, List.map_append, List.map_cons]
+    rcases List.mem_cons.mp hx with rfl | hx
+    · exact List.mem_append_right _ (List.mem_cons_self ..)
+    · rw [mem_terms_mergeAll] at hx
+      exact List.mem_append_left _ hx
+  have := nodup_subset_length _ _ hn hs
+  rw [length_terms] at this
+  simp only [List.length_cons, length_terms] at this
+  omega
+
+/-- **below the cap (distinct terms) the scan of one segment is the plain merge of all its
+qualifying entries** -/
+theorem scanSeg_full (q : List κ × Nat → Option (Contrib κ))
+    (hq : ∀ e c, q e = some c → c.1 = e.1) (cap : Nat) :
+    ∀ (es : List (List κ × Nat)) (P : List (Contrib κ)),
+      (mergeAll (P ++ es.filterMap q)).length ≤ cap →
+      scanSeg q cap (mergeAll P) es = mergeAll (P ++ es.filterMap q) := by
+  intro es
+  induction es with
+  | nil => intro P _; simp [scanSeg]
+  | cons e es ih =>
+    intro P hfit
+    unfold scanSeg
+    cases hqe : q e with
+    | none =>
+      rw [List.filterMap_cons_none hqe] at hfit ⊢
+      have := ih P hfit
+      split <;> simpa using this
+    | some c =>
+      rw [List.filterMap_cons_some hqe] at hfit ⊢
+      have hc1 := hq e c hqe
+      have hnot : ¬ ((decide (cap ≤ (mergeAll P).length) && !hasTerm (mergeAll P) e.1) = true) := by
+        intro h
+        simp only [Bool.and_eq_true, decide_eq_true_eq, Bool.not_eq_true', ] at h
+        have hnew : c.1 ∉ terms (mergeAll P) := by
+          rw [hc1, ← hasTerm_iff]; simp [h.2]
+        exact no_refusal P (es.filterMap q) c cap hfit h.1 hnew
+      rw [if_neg hnot]
+      simp only
+      rw [← mergeAll_snoc]
+      have := ih (P ++ [c]) (by simpa [List.append_assoc] using hfit)
+      simpa [List.append_assoc] using this
+
+theorem scanSegs_full (q : List κ × Nat → Option (Contrib κ))
+    (hq : ∀ e c, q e = some c → c.1 = e.1) (cap : Nat) :
+    ∀ (segs : List (List (List κ × Nat))) (P : List (Contrib κ)),
+      (mergeAll (P ++ segs.flatten.filterMap q)).length ≤ cap →
+      scanSegs q cap (mergeAll P) segs = mergeAll (P ++ segs.flatten.filterMap q) := by
+  intro segs
+  induction segs with
+  | nil => intro P _; simp [scanSegs]
+  | cons seg rest ih =>
+    intro P hfit
+    simp only [List.flatten_cons, List.filterMap_append] at hfit ⊢
+    unfold scanSegs
+    have h1 : (mergeAll (P ++ seg.filterMap q)).length ≤ cap := by
+      have := mergeAll_length_mono (P ++ seg.filterMap q) (rest.flatten.filterMap q)
+      rw [List.append_assoc] at this
+      omega
+    rw [scanSeg_full q hq cap seg P h1]
+    have := ih (P ++ seg.filterMap q) (by rw [List.append_assoc]; exact hfit)
+    rw [this, List.append_assoc]
+
+/-- without any hypothesis: the scan is the merge of a sub-list of the qualifying entries -/
+theorem scanSeg_sub (q : List κ × Nat → Option (Contrib κ)) (cap : Nat) :
+    ∀ (es : List (List κ × Nat)) (P : List (Contrib κ)),
+      ∃ A, A.Sublist (es.filterMap q) ∧ scanSeg q cap (mergeAll P) es = mergeAll (P ++ A) := by
+  intro es
+  induction es with
+  | nil => intro P; exact ⟨[], List.Sublist.refl _, by simp [scanSeg]⟩
+  | cons e es ih =>
+    intro P
+    unfold scanSeg
+    have hsub : (es.filterMap q).Sublist ((e :: es).filterMap q) :=
+      List.Sublist.filterMap q (List.sublist_cons_self e es)
+    split
+    · obtain ⟨A, hA, h⟩ := ih P
+      exact ⟨A, hA.trans hsub, h⟩
+    · cases hqe : q e with
+      | none =>
+        obtain ⟨A, hA, h⟩ := ih P
+        exact ⟨A, hA.trans hsub, by simpa using h⟩
+      | some c =>
+        obtain ⟨A, hA, h⟩ := ih (P ++ [c])
+        refine ⟨c :: A, ?_, ?_⟩
+        · rw [List.filterMap_cons_some hqe]; exact hA.cons_cons c
+        · simp only
+          rw [← mergeAll_snoc, h, List.append_assoc]; rfl
+
+theorem scanSegs_sub (q : List κ × Nat → Option (Contrib κ)) (cap : Nat) :
+    ∀ (segs : List (List (List κ × Nat))) (P : List (Contrib κ)),
+      ∃ A, A.Sublist (segs.flatten.filterMap q) ∧
+        scanSegs q cap (mergeAll P) segs = mergeAll (P ++ A) := by
+  intro segs
+  induction segs with
+  | nil => intro P; exact ⟨[], List.Sublist.refl _, by simp [scanSegs]⟩
+  | cons seg rest ih =>
+    intro P
+    unfold scanSegs
+    obtain ⟨A, hA, h⟩ := scanSeg_sub q cap seg P
+    obtain ⟨B, hB, h2⟩ := ih (P ++ A)
+    refine ⟨A ++ B, ?_, ?_⟩
+    · simp only [List.flatten_cons, List.filterMap_append]
+      exact List.Sublist.append hA hB
+    · rw [h, h2, List.append_assoc]
+
+end NewScan
 
 /-! ### insertion sort is a permutation -/
 section SortPerm
